@@ -235,6 +235,59 @@ fn encode(t: &Ty, v: &Val, out: &mut Vec<bool>) {
     }
 }
 
+/// does the pattern have the shape of the type (tuple arity, constructor kinds)?
+fn well_shaped(t: &Ty, p: &Pat) -> bool {
+    match (t, p) {
+        (_, Pat::Wild | Pat::Bind) => true,
+        (Ty::Int(..), Pat::Int(_) | Pat::Incl(..) | Pat::Excl(..)) => true,
+        (Ty::Bool, Pat::True | Pat::False) => true,
+        (Ty::Tuple(ts), Pat::Tuple(ps)) => ts.len() == ps.len() && ts.iter().zip(ps).all(|(t, p)| well_shaped(t, p)),
+        (Ty::Enum, Pat::EnumA) => true,
+        (Ty::Enum, Pat::EnumB(q)) => well_shaped(&Ty::Int("u8", 0, 255), q),
+        (Ty::Enum, Pat::EnumC(a, b)) => well_shaped(&Ty::Bool, a) && well_shaped(&Ty::Bool, b),
+        (Ty::Struct, Pat::Struct(fs, _)) => fs.iter().all(|(i, q)| well_shaped(&s_field_ty(*i), q)),
+        _ => false,
+    }
+}
+
+/// the missing cases of a PatternsAreNotExhaustive error, converted to the model's patterns (None if a case uses a form the
+/// model does not have)
+fn missing_cases(e: &garble_lang::Error) -> Option<Vec<Pat>> {
+    use garble_lang::ast::{Pattern, PatternEnum, Type};
+    use garble_lang::check::TypeErrorEnum;
+    fn conv(p: &Pattern<Type>) -> Option<Pat> {
+        Some(match &p.0 {
+            PatternEnum::Identifier(_) => Pat::Wild,
+            PatternEnum::True => Pat::True,
+            PatternEnum::False => Pat::False,
+            PatternEnum::NumUnsigned(n, _) => Pat::Int(i64::try_from(*n).ok()?),
+            PatternEnum::NumSigned(n, _) => Pat::Int(*n),
+            PatternEnum::UnsignedInclusiveRange(a, b, _) => Pat::Incl(i64::try_from(*a).ok()?, i64::try_from(*b).ok()?),
+            PatternEnum::SignedInclusiveRange(a, b, _) => Pat::Incl(*a, *b),
+            PatternEnum::Tuple(fs) => Pat::Tuple(fs.iter().map(conv).collect::<Option<Vec<_>>>()?),
+            PatternEnum::Struct(_, fs) | PatternEnum::StructIgnoreRemaining(_, fs) => {
+                let mut out = vec![];
+                for (name, q) in fs {
+                    out.push((S_FIELDS.iter().position(|f| f == name)?, conv(q)?));
+                }
+                Pat::Struct(out, true)
+            }
+            PatternEnum::EnumUnit(_, v) if v == "A" => Pat::EnumA,
+            PatternEnum::EnumTuple(_, v, fs) if v == "B" && fs.len() == 1 => Pat::EnumB(Box::new(conv(&fs[0])?)),
+            PatternEnum::EnumTuple(_, v, fs) if v == "C" && fs.len() == 2 => Pat::EnumC(Box::new(conv(&fs[0])?), Box::new(conv(&fs[1])?)),
+            _ => return None,
+        })
+    }
+    if let garble_lang::Error::CompileTimeError(garble_lang::CompileTimeError::TypeError(errs)) = e {
+        for te in errs {
+            if let TypeErrorEnum::PatternsAreNotExhaustive(stacks) = te.0.as_ref() {
+                return stacks.iter().map(|st| if st.len() == 1 { conv(&st[0]) } else { None }).collect();
+            }
+        }
+    }
+    None
+}
+
 pub fn check_case(t: &Ty, arms: &[Pat]) -> Result<bool, String> {
     let src = program(t, arms);
     let dom = domain(t, arms);
@@ -256,7 +309,27 @@ pub fn check_case(t: &Ty, arms: &[Pat]) -> Result<bool, String> {
             let k = first.iter().position(|f| f.is_none()).unwrap();
             return Err(format!("no arm matches {:?} but the match is accepted as exhaustive:\n{src}", dom[k]));
         }
-        (Err(_), false) => return Ok(true),
+        (Err(e), false) => {
+            // every reported missing case denotes at least one value, and only values that no arm matches
+            if let Some(ws) = missing_cases(e) {
+                for w in &ws {
+                    if !well_shaped(t, w) {
+                        return Err(format!("the reported missing case {} is not a pattern of type {}:\n{src}", show(w, &mut 0), ty_name(t)));
+                    }
+                    let mut all = arms.to_vec();
+                    all.push(w.clone());
+                    let wdom = domain(t, &all);
+                    let hit: Vec<&Val> = wdom.iter().filter(|v| matches(w, v)).collect();
+                    if hit.is_empty() {
+                        return Err(format!("the reported missing case {} denotes no value of {}:\n{src}", show(w, &mut 0), ty_name(t)));
+                    }
+                    if let Some(v) = hit.iter().find(|v| arms.iter().any(|p| matches(p, v))) {
+                        return Err(format!("the reported missing case {} contains {:?}, which an arm matches:\n{src}", show(w, &mut 0), v));
+                    }
+                }
+            }
+            return Ok(true);
+        }
         (Ok(_), true) => {}
     }
     let prg = garble_lang::compile(&src).map_err(|e| format!("accepted program does not compile: {e:?}\n{src}"))?;
@@ -475,7 +548,7 @@ pub fn known_f1(t: &Ty, arms: &[Pat], what: &str) -> bool {
 }
 
 pub fn search(args: &[String]) -> i32 {
-    std::panic::set_hook(Box::new(|_| {}));
+    if std::env::var("REPLAY_DEBUG").is_err() { std::panic::set_hook(Box::new(|_| {})); }
     let seed = arg_u64(args, "--seed", 1);
     let random = arg_u64(args, "--random", 1500);
     let known = arg(args, "--known").map(|k| k.split(',').any(|x| x == "C08-F1")).unwrap_or(false);
